@@ -511,7 +511,12 @@ def call_builtin(ex, reg, st, f: VBuiltin, args, kwargs, node):
                 return [(st, VStr(mk_str("")))]
             if el != T_STR:
                 if isinstance(el, TOpt) and el.elem == T_STR:
-                    raise EngineUnsupported("join over optional strings")
+                    # every element must be a string (None would be a TypeError): one quantified safety obligation
+                    j_ = fresh(INT, "jn")
+                    ex.oblige(st, f"safety[TypeError:join over None@{ln}]",
+                              z3.ForAll([j_], z3.Implies(z3.And(j_ >= 0, j_ < z3.Length(t)), z3.Not(el.is_none(t[j_])))),
+                              lineno=ln)
+                    return [(st, VStr(uf("join_opt", STR, t.sort(), STR)(s, t)))]
                 ex.oblige(st, f"safety[TypeError:join non-str@{ln}]", z3.BoolVal(False), lineno=ln)
                 return []
             return [(st, VStr(join(st, s, t)))]
@@ -678,6 +683,13 @@ def spec_builtin(ex, reg, st, name, args, kwargs, node) -> Val:
         return VInt(z3.Length(t))
     if name == "replace_all":
         return VStr(replace_all(st, S(0), S(1), S(2)))
+    if name == "join_lf_opt":
+        el, t = ex.as_seq(st, args[0])
+        if t is None:
+            return VStr(mk_str(""))
+        if isinstance(el, TOpt):
+            return VStr(uf("join_opt", STR, t.sort(), STR)(mk_str("\n"), t))
+        return VStr(join(st, mk_str("\n"), t))
     if name == "join_lf":
         el, t = ex.as_seq(st, args[0])
         if t is None:
